@@ -180,6 +180,13 @@ def build(cfg, root):
     ser = SERIALIZERS[cfg['serializer']]()
     if kind == 'disk':
         return Transform(x=fn) >> CacheToDisk.simple('x', root=root, serializer=ser, labels=cfg.get('labels'))
+    if kind == 'disk-direct':
+        # the constructor itself rather than CacheToDisk.simple: the folders are initialised by the caller
+        index, storage = Path(root) / 'index', Path(root) / 'storage'
+        if not index.exists():
+            init_storage(StorageConfig(hash='sha256', levels=[1, 31]), index)
+            init_storage(StorageConfig(hash='sha256', levels=[1, 31]), storage)
+        return Transform(x=fn) >> CacheToDisk(index, HashKeyStorage(DiskDict(storage)), ser, 'x', labels=cfg.get('labels'))
     if kind == 'stacked':
         # two disk caches over the same store, the upper value computed from the lower entry
         return (Transform(x=fn) >> CacheToDisk.simple('x', root=root, serializer=ser, labels=cfg.get('labels'))
@@ -194,7 +201,7 @@ def build(cfg, root):
 
 def reference(cfg, call):
     fn = crashfns.FUNCS[cfg['fn']]
-    if cfg['kind'] == 'disk':
+    if cfg['kind'] in ('disk', 'disk-direct'):
         return fn(call)
     if cfg['kind'] == 'stacked':
         return crashfns.second(fn(call))
@@ -263,7 +270,7 @@ def run_process(cfg, root, calls, trace=True, die_at=None):
         try:
             try:
                 ds = build(cfg, root)
-                f = ds.x if cfg['kind'] in ('disk', 'stacked') else getattr(ds, cfg['field'])
+                f = ds.x if cfg['kind'] in ('disk', 'disk-direct', 'stacked') else getattr(ds, cfg['field'])
             except BaseException as e:
                 results.append({'exc': f'build: {type(e).__name__}: {e}'[:300], 'tb': traceback.format_exc()[-1500:]})
                 f = None
@@ -338,8 +345,10 @@ def abstract(tree, ids, base):
     return {'blobs': blobs, 'index': index, 'tmps': tmps, 'unmodelled': unmodelled}
 
 
-def fault_candidates(tree):
+def fault_candidates(tree, cfg=None):
     c = []
+    # config.yml, the description of a folder, is written once when the folder is initialised and by no cache write: its loss is not among the faults
+    # (CacheToDisk.simple refuses a folder without it on the unchanged tree, the constructor lets tarn write a new one)
     for path, content in sorted(tree.items()):
         if content is None:
             continue
@@ -476,7 +485,7 @@ def explore(cfg, seed, tier, out, workdir):
     nested = [] if tier == 'thorough' else None
     done = 0
     for i, (label, tree) in enumerate(w['snaps']):
-        cands = fault_candidates(tree)
+        cands = fault_candidates(tree, cfg)
         sets = [[]]
         singles = [[c] for c in cands]
         rng.shuffle(singles)
@@ -532,6 +541,7 @@ CONFIGS = [
     {'kind': 'columns', 'field': 'y', 'fn': 'shaped', 'serializer': 'pickle', 'shard': 2, 'calls': ['a', 'c', 'b', 'e']},
     {'kind': 'columns', 'field': 'y', 'fn': 'shaped', 'serializer': 'chain', 'shard': 3, 'calls': ['e', 'a'], 'labels': ['tag']},
     {'kind': 'disk+columns', 'field': 'x', 'fn': 'plain', 'serializer': 'json', 'shard': 2, 'calls': ['a', 'd']},
+    {'kind': 'disk-direct', 'fn': 'shaped', 'serializer': 'pickle', 'calls': [1, 2]},
 ]
 
 
